@@ -181,7 +181,7 @@ TBindDrop ==
 TTask ==
   /\ Is("task")
   /\ LET r == R IN
-     /\ st' \in TaskPoll(st, r.e, r.gr, r.gs)
+     /\ st' \in TaskPollF(st, r.e, r.gr, r.gs, Fld(r, "gf", 1))
      /\ st'.obs.res = r.res
      /\ st'.obs.rcv.op = r.rcv.op
      /\ r.rcv.op \in {"connect", "ack", "reset", "finish", "push", "bind", "dgram"} => st'.obs.rcv.id = r.rcv.id
@@ -275,6 +275,7 @@ TQuiesce ==
   /\ Is("quiesce")
   /\ \A e \in E : st.task[e].ph = "run" =>
         /\ st.outq[e] = <<>> \/ st.sink[e] # "open"
+        /\ st.unfl[e] = <<>> \/ st.sink[e] # "open"
         /\ st.drops[e] = <<>>
         /\ st.rxblk[e].k = "none" \/ R.lazy
   (* C08: nothing blocks forever -- a task that left its main loop has finished by the time the
@@ -333,7 +334,7 @@ ExpStates(s, m, r) ==
     [] r.ev = "next_bind" -> NextBind(s, r.e)
     [] r.ev = "bind_reply" -> BindReply(s, r.e, r.r, r.accept)
     [] r.ev = "bind_drop" -> BindDrop(s, r.e, r.r)
-    [] r.ev = "task"      -> TaskPoll(s, r.e, r.gr, r.gs)
+    [] r.ev = "task"      -> TaskPollF(s, r.e, r.gr, r.gs, Fld(r, "gf", 1))
     [] r.ev = "bridge_start" -> BridgeStart(s, r.e, HH(m, r.e, r.h))
     [] r.ev = "bridge_poll"  -> BridgePoll(s, r.e, r.b, JEnv(r.env))
     [] r.ev = "bridge_drop"  -> BridgeDrop(s, r.e, r.b)
